@@ -556,7 +556,7 @@ def c16_execute(t, dump, tier, lib):
             code, effects, out, fs = val
             stdout = ''.join(to_pystr(x) if isinstance(x, str) else '<sym>' for x in out)
             if argv[2] == '-d' and lib_err is None and stdout not in (lib_out, lib_out + '\n'):
-                extra = stdout.replace(lib_out, '<result>')
+                extra = stdout.replace(lib_out, '<result>') if lib_out else stdout
                 res.append(BFinding('C16', 'cmd:Execute format -d', t.tag, 'stdout-extra', 'standard output is %r where <result> is the formatter\'s text' % extra[:80], {'text': t.text}))
             if argv[2] == '--file' and lib_err is None and fs.get('/work/in.dsl') != lib_out.encode():
                 res.append(BFinding('C16', 'cmd:Execute format -f', t.tag, 'file-differs', 'file holds %r' % (fs.get('/work/in.dsl') or b'')[:80], {'text': t.text}))
